@@ -45,6 +45,33 @@ func seamBases(ts string, full bool) []spec.Info {
 	return out
 }
 
+// boundKV lists in-range parameter values at and next to the ends of the documented ranges.
+var boundKV = map[string][]interface{}{
+	"quality":             {1.0, 2.0, 50.0, 99.0, 100.0},
+	"near":                {0.0, 1.0, 2.0, 3.0, 10.0, 127.0, 128.0, 254.0, 255.0},
+	"predictor":           {1.0, 2.0, 3.0, 4.0, 5.0, 6.0, 7.0},
+	"numLevels":           {0.0, 1.0, 2.0, 5.0, 6.0},
+	"numLayers":           {1.0, 2.0, 3.0, 8.0},
+	"progressionOrder":    {0.0, 1.0, 2.0, 3.0, 4.0},
+	"rate":                {1.0, 5.0, 20.0, 80.0, 100.0},
+	"blockWidth":          {4.0, 8.0, 16.0, 32.0, 64.0},
+	"blockHeight":         {4.0, 8.0, 16.0, 32.0, 64.0},
+	"targetRatio":         {1.0, 5.0, 50.0},
+	"allowMCT":            {true, false},
+	"irreversible":        {true, false},
+	"usePCRDOpt":          {true, false},
+	"appendLosslessLayer": {true, false},
+}
+
+var boundKeys = func() []string {
+	ks := make([]string, 0, len(boundKV))
+	for k := range boundKV {
+		ks = append(ks, k)
+	}
+	sort.Strings(ks)
+	return ks
+}()
+
 // seamRunOne executes one faulted Encode (and the Decode of what it returned).
 func seamRunOne(env *Env, op *spec.Op) (enc spec.OpResult, dec *spec.OpResult) {
 	tc := &taskCtx{}
@@ -99,6 +126,9 @@ func seamMain(inPath, outPath string) {
 		}
 		if op.Params.Mode == "foreign" || op.Params.Mode == "illtyped" {
 			res.FaultCounts["params-"+op.Params.Mode]++
+		}
+		if len(op.Params.KV) == 1 {
+			res.FaultCounts["params-boundary"]++
 		}
 		switch {
 		case enc.Panic != "":
@@ -194,6 +224,17 @@ func seamMain(inPath, outPath string) {
 				op := base
 				op.Params = pm
 				emit(op)
+			}
+			// in-range parameter values at and next to the ends of their ranges, one key at a time:
+			// whatever the codec accepts must come back as a stream its own Decode accepts
+			for _, k := range boundKeys {
+				for _, v := range boundKV[k] {
+					for _, mode := range []string{"base", "default"} {
+						op := base
+						op.Params = spec.Params{Mode: mode, KV: map[string]interface{}{k: v}}
+						emit(op)
+					}
+				}
 			}
 		}
 	}
